@@ -54,6 +54,10 @@ struct Anomaly {
 };
 const std::vector<Anomaly>& anomalies();
 
+// called (inside the closing thread's close()) after a descriptor of a connected stream socket was released;
+// lets a scenario model other parts of the application that open descriptors just then (number reuse)
+void set_stream_close_observer(std::function<void(int fd)> fn);
+
 // ---- run control --------------------------------------------------------------------------
 void reset();                               // forget everything (start of a run)
 std::map<std::string, int> census();        // open simulated descriptors by kind + "realfile"
